@@ -162,7 +162,21 @@ def build(spec, env):
             elif c < 0.8: n = r.choice([1, -1, 3, r.getrandbits(60) | 1]); d = (1 << r.choice([1022, 1023, 1024, 1074, 1075, 1076, 2000, 5000])) + r.choice([0, 1])
             else: n = (r.getrandbits(70) | 1) << r.choice([0, 960, 1000, 1023, 1024]); d = r.getrandbits(60) | 1
             g = math.gcd(n, d); return Fraction(n, d)
-        a = rq(); b = r.choice([a, -a, rq(), a + Fraction(1, 1 << 200), Fraction(a.numerator + 1, a.denominator)])
+        def near(a):
+            # partners that agree with a on every low limb of numerator and denominator and differ only in limbs above them (or lack a's top limb):
+            # an equality / comparison that walks the limbs of one operand with the size of the other cannot tell them apart (A93)
+            n, d = a.numerator, a.denominator
+            for _ in range(30):
+                k_ = r.choice([1, 1, r.getrandbits(20) | 1]); j = r.randint(0, 2); mode = r.choice(['den+', 'den+', 'num+', 'den-top', 'num-top'])
+                n2, d2 = n, d
+                if mode == 'den+': d2 = d + (k_ << (64 * (gen.nlimbs(d) + j)))
+                elif mode == 'num+': n2 = n + (1 if n >= 0 else -1) * (k_ << (64 * (gen.nlimbs(abs(n)) + j)))
+                elif mode == 'den-top' and gen.nlimbs(d) > 1: d2 = d & ((1 << (64 * (gen.nlimbs(d) - 1))) - 1)
+                elif mode == 'num-top' and gen.nlimbs(abs(n)) > 1: n2 = (abs(n) & ((1 << (64 * (gen.nlimbs(abs(n)) - 1))) - 1)) * (1 if n >= 0 else -1)
+                if d2 > 0 and n2 != 0 and (n2, d2) != (n, d) and math.gcd(n2, d2) == 1: return Fraction(n2, d2)
+            return a
+        a = rq(); b = r.choice([a, -a, rq(), a + Fraction(1, 1 << 200), Fraction(a.numerator + 1, a.denominator), near(a), near(a), near(a)])
+        if r.random() < 0.3: a, b = b, a
         z = r.choice([a.numerator // a.denominator, a.numerator // a.denominator + 1, gen.val(r, 2)])
         un = r.choice([abs(a.numerator) & M, r.getrandbits(64), 0, 1]); ud = r.choice([a.denominator & M, r.getrandbits(64), 1, M]) or 1
         sn = max(-(1 << 63), min((1 << 63) - 1, r.choice([a.numerator, -a.numerator, gen.val(r, 1)])))
